@@ -165,7 +165,58 @@ def knot_exact(db, cx):
                       "at their knots and a table that is zero at a knot yields negative values")
 
 
+
+def range_inverse_agree(db, cx):
+    """C14.11 (seeded change c14f): RangeCalculator and InverseRangeCalculator interpolate the same
+    table on the same scales - energy linear or logarithmic, range linear or logarithmic - in both
+    directions; otherwise they are not mutual inverses inside a bin and E - InvRange(Range(E) - s)
+    is negative for small steps."""
+    import re as _re
+
+    def scales(f):
+        out = []
+        for (_b, _i, e) in f.events("call"):
+            if e["callee"] != C + "Interpolator::Interpolator" or len(e.get("args", [])) != 2:
+                continue
+            for a in e["args"]:
+                t = (a.get("t") or "").strip()
+                if not (t.startswith("{") and t.endswith("}")):
+                    return None
+                # split the two components at the top-level comma
+                d, cut = 0, None
+                for k_, ch in enumerate(t[1:-1]):
+                    d += ch in "([{"
+                    d -= ch in ")]}"
+                    if ch == "," and d == 0:
+                        cut = k_ + 1
+                        break
+                if cut is None:
+                    return None
+                comps = [t[1:cut].strip(), t[cut + 1:-1].strip()]
+                sc = {}
+                for cpt in comps:
+                    c0 = cpt.replace("std::", "").replace("this->", "")
+                    is_e = bool(_re.search(r"log_?e|loge|log_energy", c0))
+                    if is_e:
+                        sc["E"] = "linear" if _re.match(r"^exp\(", c0) else ("log" if not _re.search(r"\b(exp|log)\(", c0) else "?")
+                    else:
+                        sc["r"] = "log" if _re.match(r"^log\(", c0) else ("linear" if not _re.search(r"\b(exp|log|sqrt)\(", c0) else "?")
+                out.append((sc.get("E"), sc.get("r")))
+        return out
+    fr = db.get(C + "RangeCalculator::operator()")
+    fi = db.get(C + "InverseRangeCalculator::operator()")
+    cx.require(fr and fi, "anchors RangeCalculator / InverseRangeCalculator operator() not found")
+    sr, si = scales(fr[0]), scales(fi[0])
+    cx.require(sr and si, "range calculators no longer build a two-point interpolator from {x, y} pairs")
+    ok = len(set(sr)) == 1 and len(set(si)) == 1 and sr[0] == si[0] and None not in sr[0] and "?" not in sr[0]
+    cx.ob("C14.11-range-inverse-agree", "range and inverse range interpolate on the same (energy, range) scales",
+          ok, "RangeCalculator: E %s, r %s; InverseRangeCalculator: E %s, r %s" % (sr[0] + si[0]),
+          short(fr[0].loc),
+          why="range(E) and its inverse are applied back to back in the continuous-loss formula; "
+              "with different in-bin interpolants they are not inverses of each other")
+
 def run(db, cx):
+    range_inverse_agree(db, cx)
     knot_exact(db, cx)
     # 1 ---------------------------------------------------------------- from geo
     fs = db.get(D + "MscStepFromGeo::operator()")
